@@ -446,6 +446,7 @@ void oracle_stability(World&, const Snapshot& before, bool growth_allowed, const
 void oracle_fresh_nodes(World&);                                                                // C05 generative distinctness
 
 std::string render_trace(const World&, std::size_t max_lines = 60);
+void run_mapping_op(World&, const Op&);   // MAPPING, callable from composite ops
 std::uint64_t structural_digest(World&, std::vector<const void*>* node_addresses = nullptr);   // C20: address-free digest of every node created
 
 }   // namespace eng
